@@ -174,6 +174,7 @@ inline Plan Gen(uint64_t seed)
       else if (k < 70) {if (!useFilters) p.push_back(sendPfx + "getdata " + Esc(Pattern(wl, hosts)));}   // GETDATA replies are indistinguishable from updates and ignore subscription filters: only in filter-free runs
       else if ((k < 73)&&(wl.oneIn(4))) {static const char * rf[] = {"!N2G", "!G2N"}; const char * f = rf[wl.below(2)]; p.push_back(sendPfx + "param " + f + " 1"); if (wl.oneIn(2)) GenPump(p, g, wl); if (wl.pct(70)) p.push_back(sendPfx + "rmparam " + Esc(f));}   /* routing flags govern unrecognised Messages only: updates keep flowing */
       else if (k < 73) {static const int mx[] = {1, 2, 3, 50}; p.push_back(sendPfx + "param !MxUp " + I(mx[wl.below(4)]));}
+      else if ((k < 75)&&(wl.oneIn(3))) p.push_back(sendPfx + "jettisontrees" + (wl.oneIn(2) ? std::string() : std::string(" *")));   /* cancels queued subtree downloads: the updates queued for this subscriber are none of those */
       else if (k < 75) p.push_back(sendPfx + "ping " + I(op));
       else if ((k < 80)&&(useDepartures)&&(!faultFree || wl.oneIn(2)))
       {
